@@ -19,8 +19,9 @@ for mp in sorted(glob.glob(os.path.join(VERIF, "seeded", "*", "meta.json"))):
         else:
             parts.append("%s: not caught" % chk)
     needs = (m.get("needs") or m.get("what_it_needs") or "").replace("\n", " ")[:160]
-    rows.append("| %s | %s | %s | %s | %s |" % (sid, m.get("property"), "yes" if m.get("confirmed") else "NO (%s)" % ("existing tests fail" if not m.get("existing_tests_pass") else "demo"), "; ".join(parts), needs))
-table = "| seeded change | property | confirmed (compiles, suite passes, demo fails with / passes without) | quick checks run with the change applied | needs |\n|---|---|---|---|---|\n" + "\n".join(rows)
+    what = (m.get("what") or "").replace("\n", " ").replace("|", "/")[:200]
+    rows.append("| %s | %s | %s | %s | %s | %s |" % (sid, m.get("property"), what, needs.replace("|", "/"), "yes" if m.get("confirmed") else "NO (%s)" % ("existing tests fail" if not m.get("existing_tests_pass") else "demo"), "; ".join(parts)))
+table = "| seeded change | property | what it changes | what it needs to manifest | confirmed (compiles, suite passes, demo fails with / passes without) | property's quick check with the change applied |\n|---|---|---|---|---|---|\n" + "\n".join(rows)
 p = os.path.join(VERIF, "DESIGN.md")
 s = open(p).read()
 a, b = "<!-- SEEDED-TABLE-BEGIN -->", "<!-- SEEDED-TABLE-END -->"
